@@ -649,6 +649,49 @@ fn method_literal(src: &Src, fname: &str, method: &str) -> R<(String, usize)> {
     v.out.ok_or(format!("no .{}(<literal>) in fn {}", method, fname))
 }
 
+/// The tail of a driver's `copy()`: how the results of its threads become the result of the call.  Recognised statements:
+/// `<t>.join().map_err(..)??;` (the thread's error, or a panic, is returned at once), `for <h> in <v> { <h>.join().map_err(..)??; }`
+/// (the same for every handle of the vector, in order) and the final `Ok(())`.  A thread result is `option N`: None = Ok.
+fn driver_join(src: &Src, gname: &str) -> R<String> {
+    let (_, block) = find_fn(src, "copy")?;
+    let txt = |st: &Stmt| quote::ToTokens::to_token_stream(st).to_string().replace(' ', "");
+    let start = block.stmts.iter().position(|st| txt(st).contains(".join()")).ok_or("copy(): no join")?;
+    fn join_of(t: &str) -> Option<String> {
+        // <name>.join().map_err(|_|XcpError::CopyError("..".to_string()))??;
+        let (name, rest) = t.split_once(".join()")?;
+        if !name.chars().all(|c| c.is_alphanumeric() || c == '_') { return None; }
+        if rest.starts_with(".map_err(|_|XcpError::CopyError(") && rest.ends_with("))??;") { Some(name.to_string()) } else { None }
+    }
+    let mut steps: Vec<(String, bool)> = vec![];   // (thread or vector name, is a vector)
+    let mut closed = false;
+    for st in &block.stmts[start..] {
+        let t = txt(st);
+        if closed { return Err(format!("copy(): statement after the final Ok(()): {}", t)); }
+        if t == "Ok(())" { closed = true; continue; }
+        if let Some(n) = join_of(&t) { steps.push((n, false)); continue; }
+        if let Stmt::Expr(Expr::ForLoop(f), _) = st {
+            let h = pat_ident(&f.pat).ok_or("copy(): for pattern")?;
+            let v = flat_name(&f.expr).ok_or("copy(): for collection")?;
+            if f.body.stmts.len() == 1 {
+                if let Some(n) = join_of(&txt(&f.body.stmts[0])) {
+                    if n == h { steps.push((v, true)); continue; }
+                }
+            }
+            return Err(format!("copy(): unexpected join loop body: {}", t));
+        }
+        return Err(format!("copy(): unexpected statement among the joins: {}", t));
+    }
+    if !closed { return Err("copy(): does not end in Ok(())".into()); }
+    let params: Vec<String> = steps.iter().map(|(n, v)| format!("({} : {})", n, if *v { "list (option N)" } else { "option N" })).collect();
+    let mut body = "None".to_string();
+    for (n, v) in steps.iter().rev() {
+        let scrut = if *v { format!("fold_left (fun acc h => match acc with Some e => Some e | None => h end) {} None", n) } else { n.clone() };
+        body = format!("match {} with Some e => Some e | None =>\n  {} end", scrut, body);
+    }
+    Ok(format!("(* {}:{}  Driver::copy: the result of the call from the results of its threads (None = Ok; a panic counts as an error), joined in this order *)\nDefinition {} {} : option N :=\n  {}.\n",
+               src.path, block.span().start().line, gname, params.join(" "), body))
+}
+
 /// finalise_copy: the ordered (step code, guard is negated) list
 fn finalise_order(src: &Src) -> R<(Vec<(u64, bool)>, usize)> {
     let (_, block) = find_fn(src, "finalise_copy")?;
@@ -1866,6 +1909,7 @@ fn main() {
         Ok(src) => {
             let p3 = ["range_start", "range_end", "bsize"];
             let p4 = ["range_start", "range_end", "bsize", "blkn"];
+            emit("parblock copy() joins", driver_join(&src, "x_parblock_copy_result"), &mut out);
             emit("queue_file_range.blocks", let_function(&src, "queue_file_range", "blocks", "x_qfr_blocks", &p3, "N", &[]), &mut out);
             emit("queue_file_range.bytes", let_function(&src, "queue_file_range", "bytes", "x_qfr_bytes", &p4, "N", &[]), &mut out);
             emit("queue_file_range.off", let_function(&src, "queue_file_range", "off", "x_qfr_off", &p4, "N", &[]), &mut out);
@@ -1881,7 +1925,10 @@ fn main() {
         Err(e) => emit("parblock.rs", Err(e), &mut out),
     }
     match load(root, "libxcp/src/drivers/parfile.rs") {
-        Ok(src) => emit("copy_worker.special", special_arm(&src, "copy_worker", "x_parfile_special"), &mut out),
+        Ok(src) => {
+            emit("copy_worker.special", special_arm(&src, "copy_worker", "x_parfile_special"), &mut out);
+            emit("parfile copy() joins", driver_join(&src, "x_parfile_copy_result"), &mut out);
+        }
         Err(e) => emit("parfile.rs", Err(e), &mut out),
     }
     match load(root, "libxcp/src/feedback.rs") {
